@@ -92,6 +92,17 @@ def gen_actor(rng, aid, ntrees, others):
         ops.append({'op': 'generate_stats', 'tree': tn0,
                     'path': rng.choice([[0, 1], [1, 0], [0]])})
 
+    if rng.chance(0.08):
+        # metadata assigned as an empty dict (zero keys), then edited in
+        # place: nobody else's metadata may change with it
+        tn0 = names[0]
+        path = rng.choice([[], [0], [0, 0]])
+        ops.append({'op': 'set', 'tree': tn0, 'path': path, 'attr': 'meta',
+                    'value': {}})
+        ops.append({'op': 'meta_set', 'tree': tn0, 'path': path,
+                    'key': 'added-later', 'value': 1})
+        ops.append({'op': 'new_tree', 'tree': tn0 + '.fresh', 'attrs': {}})
+
     if rng.chance(0.04):
         # a preamble / diff beyond 64 KiB with no line endings declared,
         # then serialised (observers must leave it that way)
